@@ -59,6 +59,21 @@ def tpl(decl="", params=None):
     return X.template("T", params=params, decl=decl, locations=[X.location("id0", "L0")], init="id0")
 
 
+LSC_OBS = ('<lsc><name>Obs</name><parameter>const int a, const int b</parameter><type>Universal</type><mode>Invariant</mode><declaration></declaration>'
+           '<yloccoord number="0" y="10"/><yloccoord number="1" y="20"/><yloccoord number="2" y="30"/>'
+           '<instance id="id7" x="0" y="0"><name>P</name></instance><instance id="id8" x="10" y="0"><name>P2</name></instance>'
+           '<prechart x="0" y="0"><lsclocation>1</lsclocation></prechart>'
+           '<message x="0" y="0"><source ref="id7"/><target ref="id8"/><lsclocation>0</lsclocation><label kind="message">lc</label></message>'
+           '<condition x="0" y="0"><anchor instanceid="id7"/><lsclocation>2</lsclocation><temperature>hot</temperature>'
+           '<label kind="condition">lx &gt;= a + b</label></condition></lsc>')
+
+
+def lsc_doc(instantiation):
+    """a model with an LSC template Obs(const int a, const int b) next to an ordinary one"""
+    doc = X.nta(GDECL + " chan lc; clock lx;", [tpl()], "P = T(); P2 = T();\n%s\nsystem P, P2;" % instantiation)
+    return doc.replace("<system>", LSC_OBS + "<system>", 1)
+
+
 SYS = "P = T(); system P;"
 # context -> builder(e) -> document.  Every declared type is *used* (a variable of it exists).
 CONTEXTS = {
@@ -89,6 +104,12 @@ CONTEXTS = {
     "argument-const-ref-parameter": lambda e: X.nta(GDECL, [tpl(params="const int &p")], "P = T(%s); system P;" % e),
     "argument-partial-instantiation": lambda e: X.nta(GDECL, [tpl(params="const int p, const int q")],
                                                        "Q(const int z) = T(z, %s); P = Q(1); system P;" % e),
+    "argument-lsc-template": lambda e: lsc_doc("Scenario = Obs(%s, 3);" % e),
+    "argument-lsc-partial-instance": lambda e: lsc_doc("Half(const int hk) = Obs(hk, 3); Scenario = Half(%s);" % e),
+    "argument-inside-lsc-partial-instance": lambda e: lsc_doc("Half(const int hk) = Obs(hk, %s); Scenario = Half(1);" % e),
+    "lsc-partial-instance-parameter-range": lambda e: lsc_doc("Half(const int[0, %s] hk) = Obs(hk, 3); Scenario = Half(1);" % e),
+    "argument-partial-instance-of-partial-instance": lambda e: X.nta(GDECL, [tpl(params="const int p, const int q")],
+                                                                      "Q(const int z, const int z2) = T(z, z2); R(const int r) = Q(r, 1); P = R(%s); system P;" % e),
     "quantifier-range": lambda e: X.nta(GDECL, [X.template("T", locations=[X.location("id0", "L0")], init="id0", transitions=[
         X.transition("id0", "id0", guard="forall (i : int[0, %s]) i >= 0" % e)])], SYS),
 }
